@@ -800,6 +800,8 @@ class QueryPlanner:
     # method for compatibility
     def from_query(self, query=None):
         self.plan = QueryPlan()
+        # results of the CTEs belong to the plan of one statement
+        self.cte_results = {}
 
         if query is None:
             query = self.query
